@@ -134,6 +134,8 @@ class NdContract(Contract):
         if name == "astype" and is_nd(recv) and args:
             # a cast is NOT the identity on the values (astype(int) truncates, astype(bool) collapses): the result is a different array
             tgt = args[0] if isinstance(args[0], str) else getattr(args[0], "name", None) or repr(args[0])
+            if tgt in ("float", "float64", "numpy.float64", "np.float64", "builtin float") or (isinstance(args[0], Abstract) and getattr(args[0], "name", "") == "float"):
+                return self._derive(recv, name=f"{recv.name}.astype(float)")          # widening to float64 keeps every value (reals, A1)
             return self._derive(recv, name=f"{recv.name}.astype({tgt})", cell=None, cast_of=recv)
         if name == "reshape" and is_nd(recv):
             tgt = args[0] if len(args) == 1 else tuple(args)
